@@ -24,7 +24,7 @@ ASSUMPTIONS = [
     'two-layer smoothing window is given in percent of the layer count (0-100)',
     'column sums rtol 1e-12; profile-range clauses rtol 1e-9 (log-space moving average)',
 ]
-REQUIRED = {'class:valid': 0.3, 'class:invalid': 0.1, 'class:boundary': 0.03, 'type:twolayer': 0.1,
+REQUIRED = {'exact-unity': 0.2, 'deactivated-molecule': 0.1, 'class:valid': 0.3, 'class:invalid': 0.1, 'class:boundary': 0.03, 'type:twolayer': 0.1,
             'type:power': 0.1, 'mode:ktables': 0.07, 'fill>=3': 0.1}
 # coverage-guided extra (thorough tier): pure-Python taurex modules on this property's path, instrumented by atheris
 FUZZ = {'include': ['taurex.data.profiles.chemistry', 'taurex.util.util'], 'runs': 20000, 'workers': 4}
@@ -74,7 +74,9 @@ def _case(draw):
     return {'class': cls, 'nlayers': nl, 'fill': list(fill), 'ratios': ratios, 'traces': traces,
             'target': draw(st.floats(0.0, 1.0)), 'ktables': ktab, 'have': have,
             'lpmax': draw(st.floats(3.0, 8.0)), 'decades': draw(st.floats(1.0, 12.0)),
-            'T': draw(st.lists(st.floats(100.0, 3000.0), min_size=2, max_size=4))}
+            'T': draw(st.lists(st.floats(100.0, 3000.0), min_size=2, max_size=4)),
+            'exact_unity': draw(st.sampled_from([0, 1, 0, 2, 3, 0, 4])),
+            'deactivate': draw(st.sampled_from([[], [], [0], [1, 2]]))}
 
 
 def strategy(tier):
@@ -138,6 +140,35 @@ def check(case):
     for g in case['traces']:
         out.cls('type:' + g['type'])
 
+    # ---- the boundary of the valid domain: traces that fill a layer EXACTLY (dyadic values sum to 1.0 without rounding) --
+    # "at or below one" is valid: accepted, nothing left for the fill gases, every number finite
+    if case.get('exact_unity'):
+        out.cls('exact-unity')
+        out.applies('exact-unity')
+        synth.reset_world()
+        try:
+            ratio = list(case['ratios'])
+            ch = cut(out, 'construct', TaurexChemistry, fill_gases=list(case['fill']),
+                     ratio=(ratio if len(ratio) != 1 else ratio[0]) if ratio else 0.0)
+            parts = {1: [1.0], 2: [0.5, 0.5], 3: [0.5, 0.25, 0.25], 4: [0.5, 0.25, 0.125, 0.125]}[1 + case['exact_unity'] % 4]
+            spare = [m_ for m_ in ('H2O', 'CH4', 'CO2', 'NH3', 'HCN', 'SO2', 'C2H2', 'PH3') if m_ not in case['fill']]
+            from taurex.data.profiles.chemistry import ConstantGas
+            for m_, v_ in zip(spare, parts):
+                ch.addGas(ConstantGas(m_, mix_ratio=v_))
+            try:
+                with np.errstate(all='ignore'):
+                    cut(out, 'initialize_chemistry', ch.initialize_chemistry, nl, T, P, None, expect=(InvalidModelException,))
+                mx = np.asarray(ch.mixProfile, dtype=float)
+                nf_ = len(case['fill'])
+                if not np.all(np.isfinite(mx)) or not np.all(np.isfinite(np.asarray(ch.muProfile, dtype=float))):
+                    out.fail('exact-unity@finite', 'traces summing to exactly one give non-finite ratios / molecular weight')
+                elif np.any(mx[:nf_] != 0.0) or not close(mx.sum(axis=0), np.ones(nl), rtol=1e-15):
+                    out.fail('exact-unity@fill', 'fill gases get %r when the traces sum to exactly one' % float(np.max(np.abs(mx[:nf_]))))
+            except InvalidModelException:
+                out.fail('exact-unity@rejected', 'a trace total of exactly one (at, not above, the limit) was rejected')
+        except CutError:
+            pass
+        synth.reset_world()
     # ---- each profile alone (raw controls) ------------------------------------------------------
     raw = []
     for g in case['traces']:
@@ -183,7 +214,15 @@ def check(case):
     have = [m for m, h in zip(allg, case['have']) if h]
     if case['ktables']:
         GlobalCache()['opacity_method'] = 'ktables'
-    for m in have:
+    have_data = list(have)
+    if case.get('deactivate') and have:
+        # the global switch that withdraws molecules from the absorbers although their data are there: for the split they
+        # count as having no opacity data, consistently in every view
+        off = [have[i % len(have)] for i in case['deactivate']]
+        GlobalCache()['deactive_molecules'] = off
+        have = [m for m in have if m not in off]
+        out.cls('deactivated-molecule')
+    for m in have_data:
         tab = np.ones((1, 1, 2)) * 1e-25
         if case['ktables']:
             KTableCache().add_opacity(synth.SynthKTable(m, [100.0, 200.0], [1000.0], [1e3], tab[..., None], [1.0]))
@@ -266,6 +305,8 @@ def check(case):
     out.applies('active-split')
     act = [m for m in allg if m in have]
     ina = [m for m in allg if m not in have]
+    if any(bool(chem.isActive(m)) != (m in act) for m in allg):
+        out.fail('active-split@%s,isActive' % mode, 'isActive() disagrees with the split: %s' % {m: bool(chem.isActive(m)) for m in allg})
     if list(chem.activeGases) != act or list(chem.inactiveGases) != ina:
         out.fail('active-split@%s' % mode, 'active %s inactive %s; data available for %s' % (list(chem.activeGases), list(chem.inactiveGases), have))
     else:
